@@ -44,7 +44,7 @@ def gen_adapter_seq(rng, lo=5, hi=16, wild=0.15):
     if rng.random() < wild:
         s = list(s)
         for _ in range(rng.randint(1, 2)):
-            s[rng.randrange(n)] = rng.choice("NNRYW")
+            s[rng.randrange(n)] = rng.choice("NNRYWI")  # I (inosine) is documented as another spelling of N
         s = "".join(s)
         if set(s) <= set("N"):
             s = "A" + s[1:]
@@ -104,6 +104,14 @@ def gen_adapter(rng, end, name=None, allow_linked=True, allow_params=True, simpl
             edge = rng.choice(RATE_EDGES)
             s = rand_seq(rng, edge[1])
         r = rng.random()
+        s_canon = s
+        if not simple and not edge:
+            # other spellings cutadapt accepts for the same adapter: lower case, U for T
+            r_ = rng.random()
+            if r_ < 0.04:
+                s = s.lower()
+            elif r_ < 0.07:
+                s = s.replace("T", "U")
         if end == "a":
             if simple or r < 0.6:
                 body, kind = s, "back"
@@ -111,7 +119,7 @@ def gen_adapter(rng, end, name=None, allow_linked=True, allow_params=True, simpl
                 body, kind = s + "$", "suffix"
             else:
                 body, kind = s + "X", "back_nonint"
-            seqs = [("back", s)]
+            seqs = [("back", s_canon)]
         elif end == "g":
             if simple or r < 0.55:
                 body, kind = s, "front"
@@ -119,10 +127,10 @@ def gen_adapter(rng, end, name=None, allow_linked=True, allow_params=True, simpl
                 body, kind = "^" + s, "prefix"
             else:
                 body, kind = "X" + s, "front_nonint"
-            seqs = [("front", s)]
+            seqs = [("front", s_canon)]
         else:
             body, kind = s, "anywhere"
-            seqs = [("any", s)]
+            seqs = [("any", s_canon)]
         params = ""
         if allow_params and not simple:
             if edge:
@@ -148,6 +156,8 @@ def plant(rng, insert, adapter, errs):
     seq = insert
     for where, s in adapter["seqs"]:
         a = mutate(rng, s, errs)
+        if "I" in a:
+            a = "".join(rng.choice(BASES) if c == "I" else c for c in a)
         if where == "back" or (where == "any" and rng.random() < 0.5):
             r = rng.random()
             if r < 0.5:
@@ -273,7 +283,7 @@ def interleave_plain(case):
 
 
 def gen_input(rng, paired, fastq, containers=("",), p_interleaved=0.3, p_multimember=0.3, p_interleaved_fasta=0.0,
-              p_comments_two_files=0.0):
+              p_comments_two_files=0.0, p_stdin=0.0):
     ext = rng.choice([".fastq", ".fq"] if fastq else [".fasta", ".fa"])
     if rng.random() < 0.1:
         ext = ""  # no extension: xopen/dnaio must detect by content
@@ -308,6 +318,13 @@ def gen_input(rng, paired, fastq, containers=("",), p_interleaved=0.3, p_multime
     out = {"layout": layout, "ext": ext, "containers": conts, "members": members, "comments": comments}
     if text:
         out["text"] = text
+    if nfiles == 1 and rng.random() < p_stdin:
+        # 'cutadapt ... -': the file is fed to standard input (a pipe when it fits into one)
+        out["stdin"] = rng.choice(["pipe", "pipe", "file"])
+        if conts[0] == ".gz":
+            # gzip data on a *pipe* is rejected ("File or stream is not seekable": detect_file_format
+            # seeks in the gzip reader) with one core and with several alike - outside the claimed properties
+            out["stdin"] = "file"
     return out
 
 
@@ -445,6 +462,7 @@ def default_profile():
         p_duplicate_adapter=0.03,
         p_many_adapters=0.004,
         p_tty=0.15,
+        p_stdin=0.07,
         p_emfile=0.08,
         p_same_name=0.0,  # (C15 only) demultiplexing: two different adapters that share a name (one file)
         p_adapter_file=0.12,  # (only when adapters are named) give one group of adapters as file:adapters.fasta
@@ -781,7 +799,7 @@ def gen_case(rng, profile=None):
                     if r_[qi] is not None:
                         r_[qi] = gen_qual(rng, L) + r_[qi]
     inp = gen_input(rng, paired, fastq, P["in_containers"], p_interleaved_fasta=P["p_interleaved_fasta"],
-                    p_comments_two_files=P["p_comments_two_files"])
+                    p_comments_two_files=P["p_comments_two_files"], p_stdin=P["p_stdin"])
     if inp["layout"] == "interleaved" or interleaved_out:
         outs.append(["--interleaved"])
     if inp["layout"] == "interleaved" and paired and not interleaved_out and demux != "combinatorial":
@@ -913,6 +931,8 @@ def gen_knobs(rng, case, P=None):
     knobs["tty"] = e.random() < P["p_tty"]
     knobs["piped_exts"] = e.choice([[], [".xz", ".zst"], [".xz", ".zst"], [".gz", ".bz2", ".xz", ".zst"]])
     knobs["emfile_at"] = e.randint(1, 12) if e.random() < P["p_emfile"] else None
+    if case["input"].get("stdin"):
+        knobs["stdin_kind"] = case["input"]["stdin"]
     return knobs
 
 
@@ -963,5 +983,8 @@ def build_argv(case, cores=1, opts=None, outs=None, extra=()):
     argv += list(extra)
     if cores > 1:
         argv += ["-j", str(cores), "--buffer-size", str(case["knobs"]["buffer_size"])]
-    argv += input_paths(case)
+    if case["input"].get("stdin"):
+        argv.append("-")  # always the last argument: engine.Ctx.run feeds the input file to standard input
+    else:
+        argv += input_paths(case)
     return argv
